@@ -27,8 +27,9 @@ META = dict(
               "compared with the log emitted by the model's scripts, and the theorems' computable hypotheses are evaluated on the "
               "recorded traces) + deep before/after snapshots around every public call of random call sequences on the implementation",
     level_text="partial: purity, cleaning, history independence and repeatability are proved for every script of the stated shape on the "
-               "model, with the behaviour of one State object as explicit interface hypotheses (C01's cache theorems; proved for a "
-               "concrete memo table). That the CODE's calls have these shapes is checked per run on recorded traces inside Coq, and the "
+               "model, with the behaviour of one State object as an explicit interface; that interface is PROVED for the State model of C01 "
+               "on every well-formed graph and purity / cleaning / history independence are re-stated over State objects reachable from "
+               "init_store with the hypothesis gone (C13_*_state; coq/theories/Compose, docs/Compose-api.md). That the CODE's calls have these shapes is checked per run on recorded traces inside Coq, and the "
                "property itself is searched on the real code: random sequences of fit / estimate / personalize (3 algorithms) / simulate "
                "/ save / load on all shipped kinds with bit-exact snapshots of model.parameters, hyper-parameters, population variables, "
                "state._values, caller DataFrame / Data / Dataset / AlgorithmSettings / IndividualParameters, repeat-call identity and "
@@ -47,6 +48,9 @@ OBLIGATIONS = [
     "C13_clones_only_pure", "C13_estimate_many_pure", "C13_scipy_call_pure", "C13_mcmc_call_clean",
     "C13_seeded_call_function_of_seed", "C13_repeated_call_same_answer", "C13_mcmc_repeat_same_answer",
     "C13_settings_copied", "C13_settings_alias_refuted", "C13_call_examples",
+    # composition with C01 (coq/theories/Compose/): the interface hypothesis discharged on the real State model
+    "C13_state_interface_discharged", "C13_estimate_pure_state", "C13_simulate_pure_state", "C13_mcmc_clean_state",
+    "C13_history_independent_state", "C13_state_examples",
 ]
 
 SCRATCH = f"/tmp/scratch/c13-check-{os.getpid()}"
